@@ -282,6 +282,24 @@ Proof.
   repeat split; assumption.
 Qed.
 
+Lemma ename_ok_parts n :
+  ename_ok n = true ->
+  nonempty n = true /\ no_outer_ws n = true /\ none_of brackets n = true /\ memb ch_lt n = false
+  /\ memb ch_apos n = false /\ True /\ True.
+Proof.
+  unfold ename_ok. intro H.
+  apply andb_true_iff in H as [H H5]. apply andb_true_iff in H as [H H4].
+  apply andb_true_iff in H as [H H3]. apply andb_true_iff in H as [H1 H2].
+  apply negb_true_iff in H4, H5.
+  repeat split; assumption.
+Qed.
+
+Lemma name_ok_ename n : name_ok n = true -> ename_ok n = true.
+Proof.
+  intro H. destruct (name_ok_parts n H) as (H1 & H2 & H3 & H4 & H5 & _).
+  unfold ename_ok. rewrite H1, H2, H3, H4, H5. reflexivity.
+Qed.
+
 Lemma last_nonws_of_no_outer (s : str) d : s <> [] -> no_outer_ws s = true -> isspace (last s d) = false.
 Proof.
   destruct s as [|c t]; [congruence|]. intros _ H. unfold no_outer_ws in H.
@@ -294,14 +312,14 @@ Definition ext_free (fixed : bool) (n row : str) : Prop :=
 
 (* _get_tag_name on a written starred row *)
 Lemma get_tag_name_star fixed lvl n A d :
-  name_ok n = true -> none_of brackets A = true -> desc_okP d ->
+  ename_ok n = true -> none_of brackets A = true -> desc_okP d ->
   ext_free fixed n (row_star (S lvl) n (extras_of A d)) ->
   contains s_zw (row_star (S lvl) n (extras_of A d)) = false ->
   get_tag_name fixed (row_star (S lvl) n (extras_of A d))
   = (Some n, Z.of_nat (S lvl + (S (length n) + (if nonempty (extras_of A d) then 1 else 0)))).
 Proof.
   intros Hn HA Hd Hx Hz.
-  destruct (name_ok_parts n Hn) as (Hne & Hws & Hb & _ & Hap & _ & _).
+  destruct (ename_ok_parts n Hn) as (Hne & Hws & Hb & _ & Hap & _ & _).
   assert (Hnn : n <> []) by (destruct n; [discriminate | discriminate]).
   assert (Ht : tail_match (rest_of (extras_of A d))
                = Some (if nonempty (extras_of A d) then 1 else 0)).
@@ -377,7 +395,7 @@ Proof. rewrite app_length. cbn [length]. lia. Qed.
 Set Default Timeout 30.
 (* the two bracketed sections of a written starred row *)
 Lemma sections_star lvl n A d :
-  name_ok n = true -> none_of brackets A = true -> desc_okP d ->
+  ename_ok n = true -> none_of brackets A = true -> desc_okP d ->
   let R := row_star (S lvl) n (extras_of A d) in
   let idx := Z.of_nat (S lvl + (S (length n) + (if nonempty (extras_of A d) then 1 else 0))) in
   exists idx2 idx3,
@@ -386,7 +404,7 @@ Lemma sections_star lvl n A d :
     = (Some (match d with Some D => D | None => [] end), idx3).
 Proof.
   intros Hn HA Hd R idx.
-  destruct (name_ok_parts n Hn) as (_ & _ & Hb & _).
+  destruct (ename_ok_parts n Hn) as (_ & _ & Hb & _).
   destruct (brackets_free n Hb) as (n1 & n2 & n3 & n4).
   destruct (brackets_free A HA) as (a1 & a2 & a3 & a4).
   assert (s1 : memb ch_lbrack (stars (S lvl)) = false) by (apply memb_stars; reflexivity).
@@ -451,7 +469,7 @@ Qed.
 Unset Default Timeout.
 
 Lemma create_entry_star fixed lvl n A d a' :
-  name_ok n = true -> none_of brackets A = true -> desc_okP d ->
+  ename_ok n = true -> none_of brackets A = true -> desc_okP d ->
   parse_attribute_string A = Ok a' -> filter kept a' = a' ->
   ext_free fixed n (row_star (S lvl) n (extras_of A d)) ->
   contains s_zw (row_star (S lvl) n (extras_of A d)) = false ->
@@ -459,7 +477,7 @@ Lemma create_entry_star fixed lvl n A d a' :
 Proof.
   intros Hn HA Hd Hp Hk Hx Hz.
   destruct (sections_star lvl n A d Hn HA Hd) as (idx2 & idx3 & S1 & S2).
-  destruct (name_ok_parts n Hn) as (Hne & _).
+  destruct (ename_ok_parts n Hn) as (Hne & _).
   rewrite (create_entry_eval fixed _ n _ A idx2 _ idx3 a' (get_tag_name_star fixed lvl n A d Hn HA Hd Hx Hz) Hne S1 Hp S2).
   rewrite Hk. do 4 f_equal.
   destruct d as [D|]; [|reflexivity].
@@ -515,14 +533,14 @@ Proof.
 Qed.
 
 Lemma read_row_star fixed lvl n A d a' :
-  name_ok n = true -> none_of brackets A = true -> desc_okP d ->
+  ename_ok n = true -> none_of brackets A = true -> desc_okP d ->
   parse_attribute_string A = Ok a' -> filter kept a' = a' ->
   ext_free fixed n (row_star (S lvl) n (extras_of A d)) ->
   contains s_zw (row_star (S lvl) n (extras_of A d)) = false ->
   read_row fixed false (row_star (S lvl) n (extras_of A d)) = Ok (Some (mkParsed false (S lvl) n a' d)).
 Proof.
   intros Hn HA Hd Hp Hk Hx Hz.
-  destruct (name_ok_parts n Hn) as (Hne & _).
+  destruct (ename_ok_parts n Hn) as (Hne & _).
   eapply read_row_eval.
   - unfold row_star, stars. cbn [repeat_ch app]. reflexivity.
   - apply get_tag_level_star.
@@ -540,7 +558,7 @@ Qed.
 
 (* the reader on the row that the writer's line becomes once the nowiki wrapper is gone *)
 Lemma wiki_row_roundtrip fixed dis lvl n a d :
-  name_ok n = true -> desc_ok d = true ->
+  ename_ok n = true -> desc_ok d = true ->
   attr_ok a = true -> wiki_text_ok (format_tag_attributes dis a) = true ->
   ext_free fixed n (row_star (S lvl) n (format_props_and_desc dis a d)) ->
   contains s_zw (row_star (S lvl) n (format_props_and_desc dis a d)) = false ->
@@ -816,9 +834,9 @@ Lemma no_outer_ws_intro c (s : str) :
 Proof. intros H1 H2. unfold no_outer_ws. rewrite H1, H2. reflexivity. Qed.
 
 Lemma strip_flushed lvl n E :
-  name_ok n = true -> strip (flushed (stars (S lvl) ++ ch_space :: n) E) = flushed (stars (S lvl) ++ ch_space :: n) E.
+  ename_ok n = true -> strip (flushed (stars (S lvl) ++ ch_space :: n) E) = flushed (stars (S lvl) ++ ch_space :: n) E.
 Proof.
-  intro Hn. destruct (name_ok_parts n Hn) as (Hne & Hws & _).
+  intro Hn. destruct (ename_ok_parts n Hn) as (Hne & Hws & _).
   apply strip_id. unfold flushed, stars. cbn [repeat_ch app].
   destruct (nonempty E).
   - apply no_outer_ws_intro; [reflexivity|].
@@ -855,6 +873,7 @@ Lemma wiki_line_roundtrip fixed dis lvl n a d line :
   = Ok (Some (mkParsed false (S lvl) n (filter (fun kv => negb (dis (fst kv))) a) d)).
 Proof.
   intros Hn Hd Ha Hw Hl Hr.
+  pose proof (name_ok_ename n Hn) as Hen.
   rewrite (write_tag_line_star dis lvl n a d Hn) in Hl.
   assert (El : flushed (stars (S lvl) ++ ch_space :: n) (format_props_and_desc dis a d) = line) by congruence.
   clear Hl. subst line.
@@ -867,7 +886,7 @@ Proof.
       apply andb_true_iff in Hd as [_ Hd]. apply wiki_text_lt_ok. exact Hd. }
   pose proof (remove_nowiki_flushed _ _ Hc He) as Hrem.
   pose proof (fatal_flushed (stars (S lvl) ++ ch_space :: n) (format_props_and_desc dis a d) Hc) as Hf.
-  rewrite read_tag_line_unfold. rewrite (strip_flushed lvl n _ Hn).
+  rewrite read_tag_line_unfold. rewrite (strip_flushed lvl n _ Hen).
   unfold row_free_of_reserved in Hr. rewrite Hrem in Hr.
   apply andb_true_iff in Hr as [Hx Hz]. apply negb_true_iff in Hz.
   assert (Hx' : ext_free fixed n ((stars (S lvl) ++ ch_space :: n) ++ rest_of (format_props_and_desc dis a d))).
@@ -1010,3 +1029,112 @@ Proof. apply strip_normal. Qed.
 
 Lemma xml_name_not_normal_before : exists text, no_outer_ws (xml_read_name false text) = false.
 Proof. exists [90%N; 160%N]. reflexivity. Qed.
+
+(* ------------------------------------------------------------------ lines of the other sections *)
+
+Lemma create_entry_eval_none fixed R n idx A idx2 Dtxt idx3 a' :
+  get_tag_name fixed R = (Some n, idx) ->
+  get_line_section R idx ch_lbrace ch_rbrace = (Some A, idx2) ->
+  parse_attribute_string A = Ok a' ->
+  get_line_section R idx2 ch_lbrack ch_rbrack = (Some Dtxt, idx3) ->
+  create_entry fixed R None
+  = Ok (false, Some (n, filter kept a', match Dtxt with [] => None | _ => Some (strip Dtxt) end)).
+Proof.
+  intros H1 H2 H3 H4. unfold create_entry. rewrite H1, H2, H3. cbn [bind]. rewrite H4. reflexivity.
+Qed.
+
+Definition read_erow (fixed fatal0 : bool) (row : str) : res (option parsed) :=
+  match row with
+  | [] => if fatal0 then Exn HedFileError else Ok None
+  | _ =>
+      let* level := get_tag_level row in
+      let* r := create_entry fixed row None in
+      match r with
+      | (false, Some (n, a, d)) =>
+          if fatal0 then Exn HedFileError else Ok (Some (mkParsed false level n a d))
+      | _ => Exn HedFileError
+      end
+  end.
+
+Lemma read_entry_line_unfold fixed line :
+  read_entry_line fixed line
+  = let '(fatal0, row) := remove_nowiki_tag_from_line (strip line) in read_erow fixed fatal0 row.
+Proof. reflexivity. Qed.
+
+Lemma read_erow_star fixed lvl n A d a' :
+  ename_ok n = true -> none_of brackets A = true -> desc_okP d ->
+  parse_attribute_string A = Ok a' -> filter kept a' = a' ->
+  ext_free fixed n (row_star (S lvl) n (extras_of A d)) ->
+  contains s_zw (row_star (S lvl) n (extras_of A d)) = false ->
+  read_erow fixed false (row_star (S lvl) n (extras_of A d)) = Ok (Some (mkParsed false (S lvl) n a' d)).
+Proof.
+  intros Hn HA Hd Hp Hk Hx Hz.
+  destruct (sections_star lvl n A d Hn HA Hd) as (idx2 & idx3 & S1 & S2).
+  pose proof (create_entry_eval_none fixed _ n _ A idx2 _ idx3 a'
+                (get_tag_name_star fixed lvl n A d Hn HA Hd Hx Hz) S1 Hp S2) as Hc.
+  rewrite Hk in Hc.
+  assert (Hdd : match (match d with Some D => D | None => [] end) with
+                | [] => None | _ :: _ => Some (strip (match d with Some D => D | None => [] end)) end = d).
+  { destruct d as [D|]; [|reflexivity]. destruct Hd as (Hdn & Hdw & _).
+    destruct D as [|c D']; [discriminate|]. rewrite (strip_id _ Hdw). reflexivity. }
+  rewrite Hdd in Hc.
+  pose proof (get_tag_level_star lvl n (extras_of A d)) as Hl.
+  unfold read_erow. unfold str in *.
+  assert (HR : exists t, row_star (S lvl) n (extras_of A d) = ch_star :: t).
+  { unfold row_star, stars. cbn [repeat_ch app]. eexists. reflexivity. }
+  destruct HR as (t & HR). rewrite HR in *. rewrite Hl. cbn [bind]. rewrite Hc. reflexivity.
+Qed.
+
+Lemma write_entry_line_star dis lvl n a d :
+  write_entry_line dis n (S lvl) true a d
+  = Some (flushed (stars (S lvl) ++ ch_space :: n) (format_props_and_desc dis a d)).
+Proof. unfold write_entry_line, flush_current_tag, flushed, stars. cbn [repeat_ch app nonempty orb]. reflexivity. Qed.
+
+(* a line of the unit class / unit / unit modifier / value class / attribute / property sections: the name is
+   one opaque term (ename_ok: a slash, '$', '^', inner blanks, a final '#' are ordinary characters of it) *)
+Lemma wiki_entry_line_roundtrip fixed dis lvl n a d line :
+  ename_ok n = true -> desc_ok d = true ->
+  attr_ok a = true -> wiki_text_ok (format_tag_attributes dis a) = true ->
+  write_entry_line dis n (S lvl) true a d = Some line ->
+  row_free_of_reserved fixed n line = true ->
+  read_entry_line fixed line
+  = Ok (Some (mkParsed false (S lvl) n (filter (fun kv => negb (dis (fst kv))) a) d)).
+Proof.
+  intros Hn Hd Ha Hw Hl Hr.
+  rewrite (write_entry_line_star dis lvl n a d) in Hl.
+  assert (El : flushed (stars (S lvl) ++ ch_space :: n) (format_props_and_desc dis a d) = line) by congruence.
+  clear Hl. subst line.
+  destruct (ename_ok_parts n Hn) as (_ & _ & _ & Hlt & _).
+  pose proof (lt_clean_cur lvl n Hlt) as Hc.
+  assert (He : lt_clean (format_props_and_desc dis a d) = true).
+  { rewrite format_props_and_desc_eq. apply lt_clean_extras.
+    - intros _. apply wiki_text_lt_ok. exact Hw.
+    - destruct d as [D|]; [|exact I]. unfold desc_ok in Hd.
+      apply andb_true_iff in Hd as [_ Hd]. apply wiki_text_lt_ok. exact Hd. }
+  pose proof (remove_nowiki_flushed _ _ Hc He) as Hrem.
+  pose proof (fatal_flushed (stars (S lvl) ++ ch_space :: n) (format_props_and_desc dis a d) Hc) as Hf.
+  rewrite read_entry_line_unfold. rewrite (strip_flushed lvl n _ Hn).
+  unfold row_free_of_reserved in Hr. rewrite Hrem in Hr.
+  apply andb_true_iff in Hr as [Hx Hz]. apply negb_true_iff in Hz.
+  assert (Hx' : ext_free fixed n ((stars (S lvl) ++ ch_space :: n) ++ rest_of (format_props_and_desc dis a d))).
+  { unfold ext_free. destruct fixed; apply negb_true_iff in Hx; exact Hx. }
+  clear Hx.
+  unfold remove_nowiki_tag_from_line in *. cbn [fst] in Hf. rewrite Hf. rewrite Hrem.
+  replace ((stars (S lvl) ++ ch_space :: n) ++ rest_of (format_props_and_desc dis a d))
+    with (row_star (S lvl) n (format_props_and_desc dis a d)) in *
+    by (unfold row_star; list_eq).
+  rewrite format_props_and_desc_eq in *.
+  apply read_erow_star; try assumption.
+  - unfold wiki_text_ok in Hw. apply andb_true_iff in Hw. tauto.
+  - apply desc_ok_P. exact Hd.
+  - apply attr_roundtrip_exact. exact Ha.
+  - apply attr_ok_kept. apply attr_ok_filter. exact Ha.
+Qed.
+
+(* Schema2XML name element: for a non-tag entry the text is the whole name -- a slash is not a separator *)
+Lemma xml_name_text_entry name : xml_name_text false name = name.
+Proof. reflexivity. Qed.
+
+Lemma xml_name_text_last_term_refuted :
+  exists name, ename_ok name = true /\ last_component name <> name.
+Proof. exists [109%N; 47%N; 115%N]. split; [reflexivity | discriminate]. Qed.
